@@ -5,17 +5,17 @@ Import ListNotations.
 Open Scope Z_scope.
 
 (* ------------------------------------------------------------------ small facts *)
-Lemma pair_eqb_eq a b : pair_eqb a b = true <-> a = b.
+Lemma row_eqb_eq a b : row_eqb a b = true <-> a = b.
 Proof.
-  destruct a as [a1 a2], b as [b1 b2]. unfold pair_eqb. cbn [fst snd].
-  rewrite andb_true_iff, !Z.eqb_eq. split; [intros [-> ->]; reflexivity|intros H; inversion H; auto].
+  destruct a as [[a1 a2] a3], b as [[b1 b2] b3]. unfold row_eqb.
+  rewrite !andb_true_iff, !Z.eqb_eq. split; [intros [[-> ->] ->]; reflexivity|intros H; inversion H; auto].
 Qed.
 
-Lemma mem_pair_In p l : mem_pair p l = true <-> In p l.
+Lemma mem_row_In x l : mem_row x l = true <-> In x l.
 Proof.
-  unfold mem_pair. rewrite existsb_exists. split.
-  - intros [x [Hx He]]. apply pair_eqb_eq in He. now subst.
-  - intros H. exists p. split; [assumption|now apply pair_eqb_eq].
+  unfold mem_row. rewrite existsb_exists. split.
+  - intros [y [Hy He]]. apply row_eqb_eq in He. now subst.
+  - intros H. exists x. split; [assumption|now apply row_eqb_eq].
 Qed.
 
 Lemma nodup_z_In x l : In x (nodup_z l) <-> In x l.
@@ -48,75 +48,82 @@ Proof.
   apply andb_true_iff in H. destruct H as [H1 H2]. apply stype_eqb_eq in H1. apply IH in H2. now subst.
 Qed.
 
-(* ------------------------------------------------------------------ one stream *)
-(* what a pair newly put into the cache by a stream of fingerprint fp with entries es comes with *)
-Definition fresh (fp : Z) (es : list entry) (rows : list row) (d : Z) : Prop :=
-  (exists e, In e es /\ day_of (e_ts e) = d) /\
-  forall t, In t (types_of es) -> In (d, fp, tcode t) rows.
+(* ------------------------------------------------------------------ the parser: one fact for all three folds
+   an accumulator step is "good" when the cache and the rows only grow and every new cache entry is a new row *)
+Definition grows (a b : list row * list row) : Prop :=
+  incl (fst a) (fst b) /\ incl (snd a) (snd b) /\
+  (forall x, In x (fst b) -> In x (fst a) \/ In x (snd b)).
 
-Lemma announce_fold fp es : forall days c0 r0 c' rows,
-  (forall d, In d days -> exists e, In e es /\ day_of (e_ts e) = d) ->
-  fold_left (announce fp (types_of es)) days (c0, r0) = (c', rows) ->
-  incl c0 c' /\ incl r0 rows /\
-  (forall d, In d days -> In (d, fp) c') /\
-  (forall p, In p c' -> In p c0 \/ (snd p = fp /\ fresh fp es rows (fst p))).
+Lemma grows_refl a : grows a a.
+Proof. split; [apply incl_refl|]. split; [apply incl_refl|auto]. Qed.
+
+Lemma grows_trans a b c : grows a b -> grows b c -> grows a c.
 Proof.
-  induction days as [|d days IH]; intros c0 r0 c' rows Hd H; cbn [fold_left] in H.
-  - inversion H; subst. split; [apply incl_refl|]. split; [apply incl_refl|]. split; [intros ? []|auto].
-  - unfold announce at 2 in H. destruct (mem_pair (d, fp) c0) eqn:E.
-    + apply IH in H; [|intros; apply Hd; now right]. destruct H as [H1 [H2 [H3 H4]]].
-      split; [assumption|]. split; [assumption|]. split; [|assumption].
-      intros x [<-|Hx]; [|now apply H3]. apply H1. now apply mem_pair_In.
-    + apply IH in H; [|intros; apply Hd; now right]. destruct H as [H1 [H2 [H3 H4]]].
-      split; [intros x Hx; apply H1; now right|].
-      split; [intros x Hx; apply H2; apply in_or_app; now left|].
-      split.
-      * intros x [<-|Hx]; [|now apply H3]. apply H1. now left.
-      * intros p Hp. destruct (H4 p Hp) as [[<-|Hc]|Hf]; [|now left|now right].
-        right. cbn [fst snd]. split; [reflexivity|]. split; [apply Hd; now left|].
-        intros t Ht. apply H2. apply in_or_app. right. apply in_map_iff. exists t. split; [reflexivity|assumption].
+  intros [A1 [A2 A3]] [B1 [B2 B3]]. split; [eapply incl_tran; eassumption|]. split; [eapply incl_tran; eassumption|].
+  intros x Hx. destruct (B3 x Hx) as [H|H]; [|now right]. destruct (A3 x H) as [H'|H']; [now left|right; now apply B2].
 Qed.
 
-Lemma on_entries_spec s c0 r0 c' rows :
-  on_entries (c0, r0) s = (c', rows) ->
-  incl c0 c' /\ incl r0 rows /\
-  (forall e, In e (s_entries s) -> In (day_of (e_ts e), s_fp s) c') /\
-  (forall p, In p c' -> In p c0 \/ (snd p = s_fp s /\ fresh (s_fp s) (s_entries s) rows (fst p))).
+Lemma announce_type_spec d fp acc t :
+  grows acc (announce_type d fp acc t) /\ In (d, fp, tcode t) (fst (announce_type d fp acc t)).
 Proof.
-  unfold on_entries. intros H. apply announce_fold in H; [|intros d Hd; now apply days_of_In].
-  destruct H as [H1 [H2 [H3 H4]]]. split; [assumption|]. split; [assumption|]. split; [|assumption].
-  intros e He. apply H3. apply days_of_In. exists e. split; [assumption|reflexivity].
+  destruct acc as [c r]. unfold announce_type. destruct (mem_row (d, fp, tcode t) c) eqn:E.
+  - split; [apply grows_refl|]. now apply mem_row_In.
+  - cbn [fst snd]. split; [|now left]. split; [intros x Hx; now right|]. split; [intros x Hx; apply in_or_app; now left|].
+    intros x [<-|Hx]; [right; apply in_or_app; right; now left|now left].
 Qed.
 
-Lemma fresh_mono fp es r1 r2 d : incl r1 r2 -> fresh fp es r1 d -> fresh fp es r2 d.
-Proof. intros Hi [H1 H2]. split; [assumption|]. intros t Ht. apply Hi. now apply H2. Qed.
-
-(* ------------------------------------------------------------------ a whole request *)
-Lemma parse_fold : forall ss c0 r0 c' rows,
-  fold_left on_entries ss (c0, r0) = (c', rows) ->
-  incl c0 c' /\ incl r0 rows /\
-  (forall s e, In s ss -> In e (s_entries s) -> In (day_of (e_ts e), s_fp s) c') /\
-  (forall p, In p c' -> In p c0 \/ exists s, In s ss /\ snd p = s_fp s /\ fresh (s_fp s) (s_entries s) rows (fst p)).
+Lemma announce_spec d fp : forall tps acc,
+  grows acc (announce fp tps acc d) /\ forall t, In t tps -> In (d, fp, tcode t) (fst (announce fp tps acc d)).
 Proof.
-  induction ss as [|s ss IH]; intros c0 r0 c' rows H; cbn [fold_left] in H.
-  - inversion H; subst. split; [apply incl_refl|]. split; [apply incl_refl|]. split; [intros ? ? []|auto].
-  - destruct (on_entries (c0, r0) s) as [c1 r1] eqn:E1.
-    apply on_entries_spec in E1. destruct E1 as [A1 [A2 [A3 A4]]].
-    apply IH in H. destruct H as [B1 [B2 [B3 B4]]].
-    split; [eapply incl_tran; eassumption|]. split; [eapply incl_tran; eassumption|]. split.
-    + intros s' e [<-|Hs] He; [apply B1; now apply A3|now apply (B3 s' e)].
-    + intros p Hp. destruct (B4 p Hp) as [Hc|[s' [Hs' [Hfp Hf]]]].
-      * destruct (A4 p Hc) as [H0|[Hfp Hf]]; [now left|]. right. exists s. split; [now left|]. split; [assumption|].
-        eapply fresh_mono; eassumption.
-      * right. exists s'. split; [now right|]. split; assumption.
+  unfold announce. induction tps as [|t tps IH]; intros acc; cbn [fold_left].
+  - split; [apply grows_refl|intros ? []].
+  - destruct (announce_type_spec d fp acc t) as [G1 M1]. destruct (IH (announce_type d fp acc t)) as [G2 M2].
+    split; [eapply grows_trans; eassumption|]. intros t' [<-|Ht']; [|now apply M2].
+    destruct G2 as [G2 _]. now apply G2.
+Qed.
+
+Lemma on_entries_spec s : forall acc,
+  grows acc (on_entries acc s) /\
+  forall e t, In e (s_entries s) -> In t (types_of (s_entries s)) ->
+              In (day_of (e_ts e), s_fp s, tcode t) (fst (on_entries acc s)).
+Proof.
+  unfold on_entries.
+  assert (G : forall days acc,
+            grows acc (fold_left (announce (s_fp s) (types_of (s_entries s))) days acc) /\
+            forall d t, In d days -> In t (types_of (s_entries s)) ->
+                        In (d, s_fp s, tcode t) (fst (fold_left (announce (s_fp s) (types_of (s_entries s))) days acc))).
+  { induction days as [|d days IH]; intros acc; cbn [fold_left].
+    - split; [apply grows_refl|intros ? ? []].
+    - destruct (announce_spec d (s_fp s) (types_of (s_entries s)) acc) as [G1 M1].
+      destruct (IH (announce (s_fp s) (types_of (s_entries s)) acc d)) as [G2 M2].
+      split; [eapply grows_trans; eassumption|]. intros d' t [<-|Hd] Ht; [|now apply M2].
+      destruct G2 as [G2 _]. apply G2. now apply M1. }
+  intros acc. destruct (G (days_of (s_entries s)) acc) as [G1 M1]. split; [assumption|].
+  intros e t He Ht. apply M1; [|assumption]. apply days_of_In. exists e. auto.
+Qed.
+
+Lemma parse_fold : forall ss acc,
+  grows acc (fold_left on_entries ss acc) /\
+  forall s e t, In s ss -> In e (s_entries s) -> In t (types_of (s_entries s)) ->
+                In (day_of (e_ts e), s_fp s, tcode t) (fst (fold_left on_entries ss acc)).
+Proof.
+  induction ss as [|s ss IH]; intros acc; cbn [fold_left].
+  - split; [apply grows_refl|intros ? ? ? []].
+  - destruct (on_entries_spec s acc) as [G1 M1]. destruct (IH (on_entries acc s)) as [G2 M2].
+    split; [eapply grows_trans; eassumption|]. intros s' e t [<-|Hs] He Ht; [|now apply (M2 s' e t)].
+    destruct G2 as [G2 _]. apply G2. now apply M1.
 Qed.
 
 Lemma parse_spec c0 ss c' rows :
   parse c0 ss = (c', rows) ->
   incl c0 c' /\
-  (forall s e, In s ss -> In e (s_entries s) -> In (day_of (e_ts e), s_fp s) c') /\
-  (forall p, In p c' -> In p c0 \/ exists s, In s ss /\ snd p = s_fp s /\ fresh (s_fp s) (s_entries s) rows (fst p)).
-Proof. unfold parse. intros H. apply parse_fold in H. tauto. Qed.
+  (forall s e, In s ss -> In e (s_entries s) -> In (day_of (e_ts e), s_fp s, tcode (e_type e)) c') /\
+  (forall x, In x c' -> In x c0 \/ In x rows).
+Proof.
+  unfold parse. intros H. destruct (parse_fold ss (c0, [])) as [[G1 [G2 G3]] M]. rewrite H in *. cbn [fst snd] in *.
+  split; [assumption|]. split; [|assumption].
+  intros s e Hs He. apply (M s e (e_type e) Hs He). now apply types_of_complete.
+Qed.
 
 Lemma samples_of_In fp d t ss :
   In (fp, d, t) (samples_of ss) ->
@@ -126,176 +133,93 @@ Proof.
   destruct H as [e [He1 He2]]. inversion He1; subst. exists s, e. auto.
 Qed.
 
-(* ------------------------------------------------------------------ invariants
-   S: the streams the history may push. The typed invariant says: every announced pair has, among
-   the inserted rows, one row per sample type of every stream of S with that fingerprint. *)
-Section INV.
-  Variable S : list stream.
-  Hypothesis Hstable : forall s1 s2, In s1 S -> In s2 S -> s_fp s1 = s_fp s2 ->
-                       types_of (s_entries s1) = types_of (s_entries s2).
+(* ------------------------------------------------------------------ the invariant
+   I: every announced triple has its row inserted (required only while no series insert has failed
+      since the last reset);  J: every acknowledged sample has the row of its day and type. *)
+Definition I (st : state) : Prop := incl (cache st) (ts_rows st).
+Definition J (st : state) : Prop := forall fp d t, In (fp, d, t) (acked st) -> In (d, fp, t) (ts_rows st).
 
-  Definition I (st : state) : Prop :=
-    forall d fp, In (d, fp) (cache st) -> exists t, In (d, fp, t) (ts_rows st).
-  Definition J (st : state) : Prop :=
-    forall fp d t, In (fp, d, t) (acked st) -> exists t', In (d, fp, t') (ts_rows st).
-  Definition It (st : state) : Prop :=
-    forall d fp, In (d, fp) (cache st) ->
-    forall s t, In s S -> s_fp s = fp -> In t (types_of (s_entries s)) -> In (d, fp, tcode t) (ts_rows st).
-  Definition Jt (st : state) : Prop :=
-    forall fp d t, In (fp, d, t) (acked st) -> In (d, fp, t) (ts_rows st).
+Definition next_dirty (a : action) : bool :=
+  match a with CacheReset => false | Push _ ts_ok _ => negb ts_ok end.
+Definition allowed (dirty : bool) (a : action) : Prop :=
+  match a with CacheReset => True | Push _ _ _ => dirty = false end.
 
-  Definition next_dirty (a : action) : bool :=
-    match a with CacheReset => false | Push _ ts_ok _ => negb ts_ok end.
-  Definition allowed (dirty : bool) (a : action) : Prop :=
-    match a with CacheReset => True | Push _ _ _ => dirty = false end.
-  Definition within (a : action) : Prop :=
-    match a with CacheReset => True | Push ss _ _ => incl ss S end.
-
-  Lemma step_untyped st a dirty :
-    allowed dirty a -> J st -> (dirty = false -> I st) ->
-    J (fst (step st a)) /\ (next_dirty a = false -> I (fst (step st a))).
-  Proof.
-    intros Ha HJ HI. destruct a as [ss ts_ok spl_ok|]; cbn [step].
-    - cbn [allowed] in Ha. specialize (HI Ha).
-      destruct (parse (cache st) ss) as [c' rows] eqn:Ep. cbn [fst].
-      apply parse_spec in Ep. destruct Ep as [P1 [P2 P3]].
-      (* the cache after the parse is covered by the rows present if the series insert took place or was not needed *)
-      assert (Hcov : is_nil rows || ts_ok = true ->
-                     forall d fp, In (d, fp) c' -> exists t, In (d, fp, t) (if ts_ok then rows ++ ts_rows st else ts_rows st)).
-      { intros Hd d fp Hin. destruct (P3 _ Hin) as [H0|[s [Hs [Hfp [[e [He Hde]] Hr]]]]].
-        - destruct (HI d fp H0) as [t Ht]. exists t. destruct ts_ok; [apply in_or_app; now right|assumption].
-        - cbn [fst snd] in *. subst fp. pose proof (Hr _ (types_of_complete e _ He)) as Hrow.
-          destruct ts_ok.
-          + exists (tcode (e_type e)). apply in_or_app. now left.
-          + rewrite orb_false_r in Hd. destruct rows; [destruct Hrow|discriminate Hd]. }
-      split.
-      + intros fp d t Hin. cbn [acked ts_rows] in *.
-        destruct (is_nil rows || ts_ok) eqn:Ed; cbn [andb] in Hin.
-        * destruct spl_ok; cbn in Hin.
-          -- apply in_app_or in Hin. destruct Hin as [Hin|Hin].
-             ++ apply samples_of_In in Hin. destruct Hin as [s [e [Hs [He [-> [-> _]]]]]].
-                apply (Hcov eq_refl). now apply (P2 s e).
-             ++ destruct (HJ _ _ _ Hin) as [t' Ht']. exists t'. destruct ts_ok; [apply in_or_app; now right|assumption].
-          -- destruct (HJ _ _ _ Hin) as [t' Ht']. exists t'. destruct ts_ok; [apply in_or_app; now right|assumption].
-        * destruct (HJ _ _ _ Hin) as [t' Ht']. exists t'. destruct ts_ok; [apply in_or_app; now right|assumption].
-      + cbn [next_dirty]. intros Hn. apply negb_false_iff in Hn. subst ts_ok.
-        intros d fp Hin. cbn [cache ts_rows] in *. apply (Hcov (orb_true_r _) d fp Hin).
-    - cbn [fst next_dirty]. split; [exact HJ|]. intros _ d fp [].
-  Qed.
-
-  Lemma step_typed st a dirty :
-    allowed dirty a -> within a -> Jt st -> (dirty = false -> It st) ->
-    Jt (fst (step st a)) /\ (next_dirty a = false -> It (fst (step st a))).
-  Proof.
-    intros Ha Hw HJ HI. destruct a as [ss ts_ok spl_ok|]; cbn [step].
-    - cbn [allowed] in Ha. specialize (HI Ha). cbn [within] in Hw.
-      destruct (parse (cache st) ss) as [c' rows] eqn:Ep. cbn [fst].
-      apply parse_spec in Ep. destruct Ep as [P1 [P2 P3]].
-      assert (Hcov : is_nil rows || ts_ok = true ->
-                     forall d fp, In (d, fp) c' -> forall s t, In s S -> s_fp s = fp -> In t (types_of (s_entries s)) ->
-                     In (d, fp, tcode t) (if ts_ok then rows ++ ts_rows st else ts_rows st)).
-      { intros Hd d fp Hin s t HsS Hfp Ht. destruct (P3 _ Hin) as [H0|[s0 [Hs0 [Hfp0 [[e [He Hde]] Hr]]]]].
-        - pose proof (HI d fp H0 s t HsS Hfp Ht) as Hrow. destruct ts_ok; [apply in_or_app; now right|assumption].
-        - cbn [fst snd] in *. subst fp.
-          assert (Et : types_of (s_entries s) = types_of (s_entries s0)).
-          { apply Hstable; [assumption|now apply Hw|congruence]. }
-          rewrite Et in Ht. pose proof (Hr _ Ht) as Hrow. rewrite <- Hfp0 in Hrow.
-          destruct ts_ok.
-          + apply in_or_app. now left.
-          + rewrite orb_false_r in Hd. destruct rows; [destruct Hrow|discriminate Hd]. }
-      split.
-      + intros fp d t Hin. cbn [acked ts_rows] in *.
-        destruct (is_nil rows || ts_ok) eqn:Ed; cbn [andb] in Hin.
-        * destruct spl_ok; cbn in Hin.
-          -- apply in_app_or in Hin. destruct Hin as [Hin|Hin].
-             ++ apply samples_of_In in Hin. destruct Hin as [s [e [Hs [He [-> [-> ->]]]]]].
-                apply (Hcov eq_refl _ _ (P2 s e Hs He) s (e_type e)); [now apply Hw|reflexivity|now apply types_of_complete].
-             ++ pose proof (HJ _ _ _ Hin) as Ht'. destruct ts_ok; [apply in_or_app; now right|assumption].
-          -- pose proof (HJ _ _ _ Hin) as Ht'. destruct ts_ok; [apply in_or_app; now right|assumption].
-        * pose proof (HJ _ _ _ Hin) as Ht'. destruct ts_ok; [apply in_or_app; now right|assumption].
-      + cbn [next_dirty]. intros Hn. apply negb_false_iff in Hn. subst ts_ok.
-        intros d fp Hin. cbn [cache ts_rows] in *. apply (Hcov (orb_true_r _) d fp Hin).
-    - cbn [fst next_dirty]. split; [exact HJ|]. intros _ d fp [].
-  Qed.
-
-  Lemma clean_step dirty a h :
-    clean_hist dirty (a :: h) = true -> allowed dirty a /\ clean_hist (next_dirty a) h = true.
-  Proof.
-    destruct a as [ss ts_ok spl_ok|]; cbn [clean_hist allowed next_dirty].
-    - intros H. apply andb_true_iff in H. destruct H as [H1 H2]. apply negb_true_iff in H1. auto.
-    - auto.
-  Qed.
-
-  Lemma run_untyped : forall h st dirty,
-    clean_hist dirty h = true -> J st -> (dirty = false -> I st) -> J (run st h).
-  Proof.
-    induction h as [|a h IH]; intros st dirty Hc HJ HI; cbn [run]; [assumption|].
-    apply clean_step in Hc. destruct Hc as [Ha Hc].
-    destruct (step_untyped st a dirty Ha HJ HI) as [HJ' HI'].
-    exact (IH _ _ Hc HJ' HI').
-  Qed.
-
-  Lemma run_typed : forall h st dirty,
-    clean_hist dirty h = true -> Forall within h -> Jt st -> (dirty = false -> It st) -> Jt (run st h).
-  Proof.
-    induction h as [|a h IH]; intros st dirty Hc Hw HJ HI; cbn [run]; [assumption|].
-    apply clean_step in Hc. destruct Hc as [Ha Hc]. inversion Hw as [|? ? Hwa Hwh]; subst.
-    destruct (step_typed st a dirty Ha Hwa HJ HI) as [HJ' HI'].
-    exact (IH _ _ Hc Hwh HJ' HI').
-  Qed.
-End INV.
-
-(* ------------------------------------------------------------------ boolean forms *)
-Lemma indexed_of_row rows fp d t t' : In (d, fp, t') rows -> indexed rows (fp, d, t) = true.
+Lemma step_inv st a dirty :
+  allowed dirty a -> J st -> (dirty = false -> I st) ->
+  J (fst (step st a)) /\ (next_dirty a = false -> I (fst (step st a))).
 Proof.
-  intros H. cbn [indexed]. apply existsb_exists. exists (d, fp, t'). split; [assumption|].
-  now rewrite !Z.eqb_refl.
+  intros Ha HJ HI. destruct a as [ss ts_ok spl_ok|]; cbn [step].
+  - cbn [allowed] in Ha. specialize (HI Ha).
+    destruct (parse (cache st) ss) as [c' rows] eqn:Ep. cbn [fst].
+    apply parse_spec in Ep. destruct Ep as [P1 [P2 P3]].
+    (* after the parse the cache is covered by the rows present, if the series insert took place or was not needed *)
+    assert (Hcov : is_nil rows || ts_ok = true ->
+                   incl c' (if ts_ok then rows ++ ts_rows st else ts_rows st)).
+    { intros Hd x Hin. destruct (P3 x Hin) as [H0|Hr].
+      - apply HI in H0. destruct ts_ok; [apply in_or_app; now right|assumption].
+      - destruct ts_ok; [apply in_or_app; now left|].
+        rewrite orb_false_r in Hd. destruct rows; [destruct Hr|discriminate Hd]. }
+    split.
+    + intros fp d t Hin. cbn [acked ts_rows] in *.
+      destruct (is_nil rows || ts_ok) eqn:Ed; cbn [andb] in Hin.
+      * destruct spl_ok; cbn in Hin.
+        -- apply in_app_or in Hin. destruct Hin as [Hin|Hin].
+           ++ apply samples_of_In in Hin. destruct Hin as [s [e [Hs [He [-> [-> ->]]]]]].
+              apply (Hcov eq_refl). now apply (P2 s e).
+           ++ pose proof (HJ _ _ _ Hin) as Ht'. destruct ts_ok; [apply in_or_app; now right|assumption].
+        -- pose proof (HJ _ _ _ Hin) as Ht'. destruct ts_ok; [apply in_or_app; now right|assumption].
+      * pose proof (HJ _ _ _ Hin) as Ht'. destruct ts_ok; [apply in_or_app; now right|assumption].
+    + cbn [next_dirty]. intros Hn. apply negb_false_iff in Hn. subst ts_ok.
+      unfold I. cbn [cache ts_rows]. apply (Hcov (orb_true_r _)).
+  - cbn [fst next_dirty]. split; [exact HJ|]. intros _ x [].
 Qed.
 
+Lemma clean_step dirty a h :
+  clean_hist dirty (a :: h) = true -> allowed dirty a /\ clean_hist (next_dirty a) h = true.
+Proof.
+  destruct a as [ss ts_ok spl_ok|]; cbn [clean_hist allowed next_dirty].
+  - intros H. apply andb_true_iff in H. destruct H as [H1 H2]. apply negb_true_iff in H1. auto.
+  - auto.
+Qed.
+
+Lemma run_inv : forall h st dirty,
+  clean_hist dirty h = true -> J st -> (dirty = false -> I st) -> J (run st h).
+Proof.
+  induction h as [|a h IH]; intros st dirty Hc HJ HI; cbn [run]; [assumption|].
+  apply clean_step in Hc. destruct Hc as [Ha Hc].
+  destruct (step_inv st a dirty Ha HJ HI) as [HJ' HI'].
+  exact (IH _ _ Hc HJ' HI').
+Qed.
+
+(* ------------------------------------------------------------------ boolean forms *)
 Lemma indexed_typed_of_row rows fp d t : In (d, fp, t) rows -> indexed_typed rows (fp, d, t) = true.
 Proof.
   intros H. cbn [indexed_typed]. apply existsb_exists. exists (d, fp, t). split; [assumption|].
   now rewrite !Z.eqb_refl.
 Qed.
 
-Lemma acked_indexed_clean h : clean_hist false h = true -> all_indexed (run init h) = true.
+Lemma indexed_typed_indexed rows s : indexed_typed rows s = true -> indexed rows s = true.
 Proof.
-  intros Hc. unfold all_indexed. apply forallb_forall. intros [[fp d] t] Hin.
+  destruct s as [[fp d] t]. cbn [indexed_typed indexed]. rewrite !existsb_exists.
+  intros [[[rd rfp] rt] [Hin H]]. exists (rd, rfp, rt). split; [assumption|].
+  apply andb_true_iff in H. tauto.
+Qed.
+
+Lemma all_typed_all st : all_indexed_typed st = true -> all_indexed st = true.
+Proof.
+  unfold all_indexed_typed, all_indexed. rewrite !forallb_forall. intros H s Hs. apply indexed_typed_indexed. now apply H.
+Qed.
+
+Lemma acked_indexed_typed_clean h : clean_hist false h = true -> all_indexed_typed (run init h) = true.
+Proof.
+  intros Hc. unfold all_indexed_typed. apply forallb_forall. intros [[fp d] t] Hin.
   assert (HJ : J (run init h)).
-  { apply (run_untyped h init false Hc); [intros ? ? ? []|intros _ ? ? []]. }
-  destruct (HJ fp d t Hin) as [t' Ht']. now apply (indexed_of_row _ fp d t t').
-Qed.
-
-Lemma within_all_streams h : Forall (within (all_streams h)) h.
-Proof.
-  assert (G : forall h0 S, incl (all_streams h0) S -> Forall (within S) h0).
-  { induction h0 as [|a h0 IH]; intros S Hi; constructor.
-    - destruct a as [ss ? ?|]; cbn [within]; [|exact Logic.I].
-      intros s Hs. apply Hi. unfold all_streams. cbn [flat_map]. apply in_or_app. now left.
-    - apply IH. intros s Hs. apply Hi. unfold all_streams. cbn [flat_map]. apply in_or_app. now right. }
-  apply G. apply incl_refl.
-Qed.
-
-Lemma types_stable_spec h : types_stable h = true ->
-  forall s1 s2, In s1 (all_streams h) -> In s2 (all_streams h) -> s_fp s1 = s_fp s2 ->
-  types_of (s_entries s1) = types_of (s_entries s2).
-Proof.
-  unfold types_stable. intros H s1 s2 H1 H2 Hfp.
-  rewrite forallb_forall in H. specialize (H s1 H1). rewrite forallb_forall in H. specialize (H s2 H2).
-  unfold stable_pair in H. apply orb_true_iff in H. destruct H as [H|H].
-  - apply negb_true_iff, Z.eqb_neq in H. contradiction.
-  - now apply types_eqb_eq.
-Qed.
-
-Lemma acked_indexed_typed_clean h :
-  clean_hist false h = true -> types_stable h = true -> all_indexed_typed (run init h) = true.
-Proof.
-  intros Hc Hs. unfold all_indexed_typed. apply forallb_forall. intros [[fp d] t] Hin.
-  assert (HJ : Jt (run init h)).
-  { apply (run_typed (all_streams h) (types_stable_spec h Hs) h init false Hc (within_all_streams h));
-      [intros ? ? ? []|intros _ ? ? []]. }
+  { apply (run_inv h init false Hc); [intros ? ? ? []|intros _ ? []]. }
   apply indexed_typed_of_row. now apply HJ.
 Qed.
+
+Lemma acked_indexed_clean h : clean_hist false h = true -> all_indexed (run init h) = true.
+Proof. intros Hc. apply all_typed_all. now apply acked_indexed_typed_clean. Qed.
 
 (* ------------------------------------------------------------------ witnesses *)
 (* one series, one log line on 2024-01-10 *)
@@ -306,16 +230,17 @@ Definition w_retry : list action := [Push [w_stream] false true; Push [w_stream]
 Lemma w_retry_not_indexed : all_indexed (run init w_retry) = false.
 Proof. vm_compute. reflexivity. Qed.
 
-(* the same labels first with a log line, then with a metric value on the same day: the second push
-   finds the pair announced and adds no type-2 row; PromQL selects  type IN (2, 0)  *)
+(* the witness of the fixed type defect: the same labels first with a log line, then with a metric
+   value on the same day. The second push now announces (day, fp, 2) and inserts the type-2 row. *)
 Definition w_stream_metric : stream := {| s_fp := 7; s_entries := [{| e_ts := 1704888060000000000; e_type := TMetric |}] |}.
 Definition w_types : list action := [Push [w_stream] true true; Push [w_stream_metric] true true].
-Lemma w_types_not_indexed : all_indexed_typed (run init w_types) = false /\ clean_hist false w_types = true.
+Example w_types_indexed :
+  all_indexed_typed (run init w_types) = true /\ ts_rows (run init w_types) = [(19732, 7, 2); (19732, 7, 1)].
 Proof. vm_compute. split; reflexivity. Qed.
 
-(* the guards are satisfiable by histories with faults, resets and several series *)
+(* the guard is satisfiable by histories with faults, resets, several pushes of a series and varying types *)
 Definition w_clean : list action :=
-  [Push [w_stream] true true; Push [w_stream; w_stream] false true; CacheReset; Push [w_stream] true false; Push [w_stream] true true].
-Example w_clean_ok : clean_hist false w_clean = true /\ types_stable w_clean = true /\
-                     acked (run init w_clean) <> [].
+  [Push [w_stream] true true; Push [w_stream; w_stream_metric] false true; CacheReset;
+   Push [w_stream_metric] true false; Push [w_stream] true true].
+Example w_clean_ok : clean_hist false w_clean = true /\ types_stable w_clean = false /\ acked (run init w_clean) <> [].
 Proof. vm_compute. split; [reflexivity|]. split; [reflexivity|discriminate]. Qed.
